@@ -927,6 +927,12 @@ class SpeaTr(object):
                     refuse(it, "sorted of something else than a list of natural numbers")
                 names_free([target.id])
                 return "(rev (sort_nat %s))" % xs, "let %s := x_ in " % v(target.id), {target.id: "nat"}
+            if it.func.id == "sorted" and len(it.args) == 1 and isinstance(target, ast.Name):
+                xs, tx = self.expr(it.args[0], env)
+                if tx != "listnat":
+                    refuse(it, "sorted of something else than a list of natural numbers")
+                names_free([target.id])
+                return "(sort_nat %s)" % xs, "let %s := x_ in " % v(target.id), {target.id: "nat"}
             if it.func.id == "range" and len(it.args) in (1, 2) and isinstance(target, ast.Name):
                 args = [self.expr(a, env) for a in it.args]
                 args = [("(Z.to_nat %s)" % x, "nat") if t == "Z" else (x, t) for x, t in args]   # range(.., negative) is empty
